@@ -622,6 +622,13 @@ def check_executor_loops(rep, core, rid='R01.e'):
         rep.expect(rid, ok and all(g.all_paths_pass(r, rets, via_blocks=spawn_new + clears) for r in runs), 'settle-respawn',
                    'after any task ran, the spawn queue is re-read before the loop can exit',
                    'run_until_settled can exit after running a task without re-reading the spawn queue')
+        # ... and the loop is left only when the ready queue was found empty (or the command aborted): no budget, timeout or count may
+        # end a pass with wake-ups still queued — nothing reschedules them, and a hosted command would answer Pending with runnable tasks
+        empty_edges = [e for _, es in queue_reads(g, 'ready_queue') for e in es]
+        rep.expect(rid, ok and bool(empty_edges) and not (set(rets) & g.reachable([0], removed_edges=empty_edges, removed_blocks=clears)),
+                   'settle-exits-only-when-empty', 'every return follows a look at the ready queue that found it empty (or the abort branch)',
+                   'run_until_settled can return while wake-ups are still in the ready queue (a poll budget, a counter, a time limit): the tasks they '
+                   'belong to are runnable but nothing will run them, so the command neither progresses nor reports done')
         rep.expect(rid, ok and all(any(g.dominates(s, e) and s != e for s in spawn_new) for e in empties), 'settle-order',
                    'spawn_new_tasks precedes the emptiness test of the ready queue',
                    'run_until_settled tests the ready queue before moving spawned tasks into it')
